@@ -249,8 +249,8 @@ def random_program_gen(rng, end_t, maxev, p_fault, prios=(1, 5, 10), bad=("nan_a
 
 
 def random_run(ctx: Ctx, rng, conc, end_t, warm_t, strategy, *, cmds, p_fault=0.0, maxev=14, ncmds=8, reinit=False,
-               model_factory=None, dispose=True, wide=False, p_strat=0.0, probe_starting=False, p_endrep=0.0):
-    gen = random_program_gen(rng, end_t, maxev, p_fault, p_cancel=0.45 if wide else 0.12, p_strat=p_strat, p_endrep=p_endrep)
+               model_factory=None, dispose=True, wide=False, p_strat=0.0, probe_starting=False, p_endrep=0.0, p_cancel=None):
+    gen = random_program_gen(rng, end_t, maxev, p_fault, p_cancel=p_cancel if p_cancel is not None else (0.45 if wide else 0.12), p_strat=p_strat, p_endrep=p_endrep)
     init_ops = []
     for _ in range(rng.choice([8, 10, 12]) if wide else rng.choice([1, 2, 3])):
         k = rng.choice(["rel", "rel", "abs", "now"])
